@@ -15,8 +15,6 @@
       minmaxtypes    `$min` / `$max` over values of several types raise TypeError (MongoDB orders
                      them by BSON type)
       sumbool        `$sum` / `$avg` count booleans as 0 / 1 (MongoDB ignores non-numbers)
-      unwindindex    `includeArrayIndex` is left out (not null) of a document kept by
-                     `preserveNullAndEmptyArrays`
       lookupboolnum  `$lookup` joins `true` to `1` (Python `==`)
       limitdouble    `$limit: 2.0` / `$skip: 1.0` (a double without fraction) are rejected;
                      MongoDB takes them as the integer
@@ -74,11 +72,10 @@ def stageReasons (op : String) (opts : Val) (docs : List Val) : List String :=
     | _ => ["nospec"]
   else if op = "$unwind" then
     match unwindArgs opts with
-    | some (_, pres, ix) =>
+    | some _ =>
       docs.flatMap (fun d => match d with
         | .doc _ => []
-        | _ => ["nondoc"]) ++
-      (if ix.isSome then ["nospec"] else []) ++ (if pres && ix.isSome then ["unwindindex"] else [])
+        | _ => ["nondoc"])
     | none => ["nospec"]
   else ["nospec"]
 
